@@ -138,12 +138,12 @@ Proof. exact zk_rejected_silent_example. Qed.
 Theorem C10_notifier_rejected_silent : forall mods h j now r m c,
   NotifierProofs.names_distinct mods -> nth_error h j = Some (Notifier.HResponse now r) -> In m mods ->
   Notifier.lists_accept (Notifier.nm_lists m (Notifier.nr_group r)) = false ->
-  In c (NotifierProofs.calls_at mods h j) -> Notifier.nc_module c <> Notifier.nm_name m.
+  In c (Notifier.calls_at mods h j) -> Notifier.nc_module c <> Notifier.nm_name m.
 Proof. exact notifier_rejected_silent. Qed.
 Print Assumptions C10_notifier_rejected_silent.
 
 Theorem C10_notified_module_accepts : forall mods h j now r c,
-  NotifierProofs.names_distinct mods -> nth_error h j = Some (Notifier.HResponse now r) -> In c (NotifierProofs.calls_at mods h j) ->
+  NotifierProofs.names_distinct mods -> nth_error h j = Some (Notifier.HResponse now r) -> In c (Notifier.calls_at mods h j) ->
   exists m, In m mods /\ Notifier.nm_name m = Notifier.nc_module c /\
             Notifier.lists_accept (Notifier.nm_lists m (Notifier.nr_group r)) = true.
 Proof. exact notified_module_accepts. Qed.
